@@ -15,6 +15,16 @@ TRUST = ("Bounded symbolic execution: the verdict covers every input within the 
 # property -> (claimed?, technique, level text, level_note extra / reason)
 CH = 'CrossHair symbolic execution of the real functions + z3 (per path), counterexamples replayed'
 CLAIMS = {
+    'C03': (True, CH,
+            'The steps that produce a header entry, each on the real functions: every path of the transcript variant '
+            'graph is annotated with exactly the variants whose application spells it (1 variant, 2 SNVs; 10 nt); '
+            'join_miscleaved_peptides names exactly the variants a series of nodes depends on for every presence '
+            'pattern of 8 variant roles; create_variant_peptide_id / parse_variant_peptide_id write and recover '
+            'exactly those ids after the right backbone (transcript, fusion with donor/acceptor side, circRNA); '
+            'get_peptide_sequences gives every entry a distinct trailing index.',
+            'NOT claimed: the end-to-end statement (named variants applied to the backbone give a translation that '
+            'contains the peptide) - codon alignment, translation, the cleavage graph and its variant bookkeeping '
+            'are out of reach of the engine (DESIGN.md section 6); graph nodes are stand-ins in the join step.'),
     'C04': (True, CH,
             'Every path of the real callVariant main loop (stubbed collaborators) is explored for every '
             'skip pattern, thread count and is_valid verdict: a rejected peptide never reaches the table '
@@ -130,12 +140,7 @@ CLAIMS = {
 }
 
 NOT_YET = 'no solver-based check built for this property in this revision of /verif'
-NA = {
-    'C03': 'header truthfulness needs the translated, cleaved graph plus a command-level oracle; '
-           'CrossHair cannot carry symbolic content through content-hashed graph nodes, codon '
-           'tables and regexes (DESIGN.md section 6), and a command-level comparison would be '
-           'sampling, not solving',
-}
+NA = {}
 
 
 def main():
